@@ -113,7 +113,7 @@ func isolated(p *vm.Plan, trace bool) *vm.Result {
 	cmd.ExtraFiles = []*os.File{pw}
 	var stderr bytes.Buffer
 	cmd.Stderr = &stderr
-	cmd.Env = append(os.Environ(), "TZ=UTC")
+	cmd.Env = append(os.Environ(), "TZ=UTC", "GOMAXPROCS="+envOr("BSIM_GOMAXPROCS", "1"))
 	if trace {
 		cmd.Env = append(cmd.Env, "BSIM_TRACE=1")
 	}
@@ -690,7 +690,9 @@ func spawnWorker(id, tier string, seed int64, from, to, stride int, cur string, 
 	cmd.ExtraFiles = []*os.File{pw}
 	var stderr bytes.Buffer
 	cmd.Stderr = &stderr
-	cmd.Env = append(os.Environ(), "TZ=UTC")
+	// one OS thread per worker: inside a bubble at most one goroutine is runnable, and
+	// 16 workers already use every core (measured 4x faster than GOMAXPROCS=16)
+	cmd.Env = append(os.Environ(), "TZ=UTC", "GOMAXPROCS="+envOr("BSIM_GOMAXPROCS", "1"))
 	if err := cmd.Start(); err != nil {
 		return from, err.Error(), true
 	}
